@@ -18,10 +18,25 @@ def make_grid(g):
     n = g["n"]
     lat, lon = [], []
     for i in range(n):
-        if i and r.random() < g["p_close"]:
+        c = r.random()
+        if i and c < g.get("p_anti", 0.0):
+            # a global grid: the antipode of an earlier node, or a second
+            # station at the very same place (cosine of the distance is -1
+            # or +1 up to rounding)
+            j = r.randrange(i)
+            if r.random() < 0.75:
+                lat.append(-lat[j])
+                lon.append(lon[j] + 180.0 if lon[j] < 0 else lon[j] - 180.0)
+            else:
+                lat.append(lat[j])
+                lon.append(lon[j])
+        elif i and c < g.get("p_anti", 0.0) + g["p_close"]:
             j = r.randrange(i)            # a close neighbour (< 0.05 rad)
             lat.append(max(-85.0, min(85.0, lat[j] + r.uniform(-2, 2))))
             lon.append(lon[j] + r.uniform(-2, 2))
+        elif g.get("p_anti"):
+            lat.append(float(r.randrange(-88, 89)))      # whole degrees
+            lon.append(float(r.randrange(-179, 180)))
         else:
             lat.append(round(r.uniform(-80, 80), 2))
             lon.append(round(r.uniform(-170, 170), 2))
@@ -61,7 +76,8 @@ class C09(Machine):
                    "boundary_pairs_skipped", "ties_at_selected_threshold",
                    "directed_asymmetric", "winter_only_toggled",
                    "monotonicity_pairs_checked",
-                   "fortran_ordered_similarity")
+                   "fortran_ordered_similarity",
+                   "antipodal_or_coincident_nodes")
     # reported, un-judged conditions (not in probe_names: zero is fine)
     info_probes = ("asymmetric_similarity_undirected",
                    "density_clause_skipped_small_diagonal")
@@ -71,7 +87,10 @@ class C09(Machine):
                              "ClimateData"], "stub": []}
     assumptions = [
         "the similarity matrix the object reports and the grid's angular "
-        "distance are taken as given (their correctness is C10/C12)",
+        "distance are taken as given where finite (their correctness is "
+        "C10/C12); an undefined (NaN) distance is replaced by the double-"
+        "precision haversine distance, and pairs that the two distances put "
+        "on different sides of the threshold are not judged",
         "the density clause is generated with a unit diagonal dominating "
         "all entries, as for any self-similarity",
         "pairs within 16 float32 ulps of the threshold are not judged when "
@@ -92,7 +111,8 @@ class C09(Machine):
         cls = a.choice(CLASSES)
         n = a.randrange(2, 11)
         g = {"n": n, "T": 10, "gseed": a.randrange(10 ** 9),
-             "p_close": a.choice((0.0, 0.3, 0.6))}
+             "p_close": a.choice((0.0, 0.3, 0.6)),
+             "p_anti": a.choice((0.0, 0.0, 0.0, 0.4))}
         cfg = {"lru": lru, "class": cls,
                "non_local": a.random() < 0.3,
                "init": a.choice(("threshold", "density"))}
@@ -292,12 +312,33 @@ class C09(Machine):
         representable = float(np.float32(thr64)) == thr64
         if state["non_local"]:
             D = np.asarray(net.grid.angular_distance()).astype(np.float64)
+            # the great-circle distance again, in double precision
+            # (haversine): where the grid's single-precision value is
+            # undefined (NaN) the documented weight is still defined, and
+            # where the two put a pair on different sides of the threshold
+            # the pair is a numerical boundary case
+            gg = net.grid.grid()
+            la = np.radians(np.asarray(gg["lat"], dtype=np.float64))
+            lo = np.radians(np.asarray(gg["lon"], dtype=np.float64))
+            h = np.sin((la[:, None] - la[None, :]) / 2) ** 2 + \
+                np.cos(la)[:, None] * np.cos(la)[None, :] * \
+                np.sin((lo[:, None] - lo[None, :]) / 2) ** 2
+            D64 = 2 * np.arcsin(np.sqrt(np.clip(h, 0.0, 1.0)))
+            undefined = ~np.isfinite(D)
+            if np.any(undefined):
+                R.probe("grid_distance_undefined")
+            if np.any(np.abs(D64 - np.pi) < 1e-6) or np.any(
+                    (D64 < 1e-9) & ~np.eye(n, dtype=bool)):
+                R.probe("antipodal_or_coincident_nodes")
+            D = np.where(undefined, D64, D)
             damp = 0.5 * (np.tanh(20.0 * (D - 0.05)) + 1.0)
             Wp = W64 * damp
+            Wp64 = W64 * 0.5 * (np.tanh(20.0 * (D64 - 0.05)) + 1.0)
             if np.any((damp < 0.999) & ~np.eye(n, dtype=bool)):
                 R.probe("non_local_damped_pair")
             skip = np.abs(Wp - thr64) <= 16 * np.maximum(
                 ulp32(thr64), np.spacing(Wp.astype(np.float32)).astype(float))
+            skip |= (Wp > thr64) != (Wp64 > thr64)
         else:
             Wp = W64
             if representable:
